@@ -67,6 +67,37 @@ class ValTrue(Cut):
         return _bool_targets(labels3, self.truth)
 
 
+_BORROW = {}
+
+
+def borrow(W, chk, module, rules, why):
+    """Obligations of a neighbouring property's rule that are also necessary conditions of this property: the neighbour's rule
+    module is evaluated once per process and the obligations of the named rules are copied (instances prefixed with the
+    neighbour's id)."""
+    import importlib
+    from base import Check
+    if getattr(chk, "_borrowed", False):
+        return 0          # a neighbour evaluated on behalf of another check does not borrow in turn
+    key = (W.facts_dir, module)
+    if key not in _BORROW:
+        sub_ = Check(module, chk.tier)
+        sub_._borrowed = True
+        try:
+            importlib.import_module("rules.%s" % module).run(W, sub_)
+        except Exception as ex:   # the neighbour's own check reports its internal errors
+            sub_.fail("ENGINE", "exception", str(ex)[:200])
+        _BORROW[key] = sub_
+    got = 0
+    for o in _BORROW[key].obligations:
+        if o["rule"] in rules:
+            o2 = dict(o)
+            o2["instance"] = "%s:%s" % (module, o["instance"])
+            chk.obligations.append(o2)
+            got += 1
+    chk.notes.append("shared with %s (%s): %d obligations of %s" % (module, why, got, sorted(rules)))
+    return got
+
+
 def pred_tree_has(v, test, depth=0):
     """does the predicate tree of a switch operand contain a comparison (name, args) satisfying test?"""
     if depth > 8 or not hasattr(v, "atoms"):
